@@ -9,6 +9,8 @@ Tracked from outside, per path X (the protected file) and X.lock:
     unlink of X): any other change observed between two system calls          -> file:modified-in-place
   * the bytes installed by rename(X.lock -> X) are the complete intended payload, if the scenario
     declared one                                                              -> lock:partial-content-published
+  * an actor that has held X.lock and released it does not unlink X afterwards without the lock
+                                                                              -> lock:protected-file-removed-after-releasing-its-lock
 """
 
 from __future__ import annotations
@@ -39,6 +41,7 @@ class LockInvariants:
         self.intended = {}  # actor -> bytes expected to be installed by its next commit
         self.viol = []
         self.installs = []  # (actor, target, content)
+        self.had_lock = set()  # (actor, target): the actor has held target.lock at some point of this execution
         for t in targets:
             self.track(t)
 
@@ -63,6 +66,7 @@ class LockInvariants:
                 self.v("lock:two-holders", "actor %d obtained %s while actor(s) %r hold it" % (actor, self.rel(path), others))
             hs.add(actor)
             self.owner[path] = actor
+            self.had_lock.add((actor, tgt))
         elif op in ("replace", "rename"):
             src = info.get("src")
             if src and src.endswith(".lock"):
@@ -91,6 +95,11 @@ class LockInvariants:
                 self.owner[path] = None
                 self.holders.setdefault(path, set()).discard(actor)
             if path in self.content:
+                if (actor, path) in self.had_lock and actor not in self.holders.get(path + ".lock", set()):
+                    # took the lock, let go of it, and only then changes the protected file: whatever it checked under
+                    # the lock may no longer be true (somebody else may have committed a new value in between)
+                    self.v("lock:protected-file-removed-after-releasing-its-lock",
+                           "actor %d unlinked %s after it had released %s.lock" % (actor, self.rel(path), self.rel(path)))
                 self.content[path] = None
 
     # at every scheduling point (between two system calls) ---------------------------------
